@@ -1,2 +1,29 @@
-(* placeholder until the theorems are integrated *)
-From SE Require Import Model.System.
+(* C06 - Exposed counters never decrease and never become NaN.
+   partial: holds as long as the integral increments of a series stay below 2^64 in total - the
+   client library accumulates them in a uint64 that wraps (known finding counter-uint64-wrap,
+   witnessed by C06_wrap_refuted). *)
+From SE Require Import Spec.PipelineSpec Spec.CounterSpec Proofs.PipelineProofs Proofs.CounterProofs.
+
+(* increments that are negative or NaN after sampling and scaling are never applied *)
+Theorem C06_counter_guard : stmt_counter_guard.
+Proof. exact counter_guard_ok. Qed.
+Print Assumptions C06_counter_guard.
+Theorem C06_guard_is_nonneg : stmt_guard_is_nonneg.
+Proof. exact guard_is_nonneg_ok. Qed.
+Print Assumptions C06_guard_is_nonneg.
+
+(* one admitted increment never lowers the exposed value and never makes it NaN *)
+Theorem C06_counter_add_monotone_partial : stmt_counter_add_monotone.
+Proof. exact counter_add_monotone_ok. Qed.
+Print Assumptions C06_counter_add_monotone_partial.
+
+(* whole histories of a series: the exposed values are non-decreasing and never NaN *)
+Theorem C06_counter_history_monotone_partial : stmt_counter_history_monotone.
+Proof. exact counter_history_monotone_ok. Qed.
+Print Assumptions C06_counter_history_monotone_partial.
+
+(* without the no-wrap hypothesis the statement is false: 1e19 twice *)
+Theorem C06_wrap_refuted : stmt_counter_wrap_refuted.
+Proof. exact counter_wrap_refuted_ok. Qed.
+Print Assumptions C06_wrap_refuted.
+(* a series that expired and was recreated starts again from zero: C07_sample_sets_clock *)
